@@ -197,6 +197,9 @@ func runSweep(v *variant, hashed, plain *builtTries, s pStep, first *felt.Felt, 
 		// only the dirty marks of unsetInternal / unset stand between a cached hash and the verdict
 		if s.Lc == "leaf-under-bin" && (c.M == "omit-all-but-last" || (c.M == "omit-interior-all" && s.Fc == "leaf-under-bin")) {
 			counts["sweep-claims-of-kept-boundary-leaves-only"]++
+			if c.M == "omit-interior-all" {
+				counts["sweep-claims-of-two-kept-boundary-leaves"]++
+			}
 		}
 		for _, p := range provs {
 			pname := "direct"
